@@ -20,6 +20,14 @@ operators (all keep the file syntactically valid):
   unmemo     a memoising decorator removed
   ifexp      `a if c else b` -> `b if c else a`
   return-arg `return f(x)` -> `return x` for single-argument calls
+  (second generation, `gen2`)
+  drop-kw    one keyword argument removed from a call
+  drop-opnd  one operand removed from an `and` / `or`
+  del-guard  an `if` without `else` whose body ends in return / raise / continue / break removed entirely
+  if-true    an `if` test with an else/elif replaced by True / False (one arm made unreachable)
+  slice      a constant slice bound or index changed (1 <-> 0 handled by const; here `[a:]` -> `[:]`, `[:b]` -> `[:]`, `-1` <-> `0`)
+  method     a method replaced by its usual sibling (append/appendleft, add/discard, get(k, d) -> [k], items/values, startswith/endswith, any/all, update/setdefault …)
+  name-swap  a loaded local name replaced by another local of the same function read at the same kind of position (call argument)
 """
 from __future__ import annotations
 
@@ -106,6 +114,7 @@ class Gen(ast.NodeVisitor):
                 self.add(st, "pass", "del-stmt", f"statement `{self.text(st)[:50]}` removed")
 
     def visit_If(self, node):
+        self.gen2_If(node)
         self.block(node.body)
         self.block(node.orelse)
         self.generic_visit(node)
@@ -135,6 +144,7 @@ class Gen(ast.NodeVisitor):
         self.generic_visit(node)
 
     def visit_BoolOp(self, node):
+        self.gen2_BoolOp(node)
         if self.fn:
             op = " or " if isinstance(node.op, ast.And) else " and "
             parts = []
@@ -142,6 +152,70 @@ class Gen(ast.NodeVisitor):
                 t = self.text(v)
                 parts.append(f"({t})" if isinstance(v, (ast.BoolOp, ast.IfExp, ast.Lambda, ast.NamedExpr)) else t)
             self.add(node, "(" + op.join(parts) + ")", "boolop", f"`{self.text(node)[:50]}` and<->or")
+        self.generic_visit(node)
+
+    GEN2 = False
+
+    def gen2_If(self, node):
+        if not (self.GEN2 and self.fn):
+            return
+        if not node.orelse and node.body and isinstance(node.body[-1], (ast.Return, ast.Raise, ast.Continue, ast.Break)):
+            self.add(node, "pass", "del-guard", f"guard `if {self.text(node.test)[:50]}` removed with its exit")
+        if node.orelse:
+            t = node.test
+            self.add(t, "True", "if-true", f"`if {self.text(t)[:50]}` always taken")
+            self.add(t, "False", "if-true", f"`if {self.text(t)[:50]}` never taken")
+
+    def gen2_BoolOp(self, node):
+        if not (self.GEN2 and self.fn):
+            return
+        op = " and " if isinstance(node.op, ast.And) else " or "
+        for i, v in enumerate(node.values):
+            rest = []
+            for j, x in enumerate(node.values):
+                if j != i:
+                    t = self.text(x)
+                    rest.append(f"({t})" if isinstance(x, (ast.BoolOp, ast.IfExp, ast.Lambda, ast.NamedExpr)) else t)
+            self.add(node, "(" + op.join(rest) + ")", "drop-opnd", f"operand `{self.text(v)[:40]}` dropped from `{self.text(node)[:50]}`")
+
+    SIBLING = {"append": "appendleft", "appendleft": "append", "add": "discard", "items": "values", "values": "keys", "startswith": "endswith", "endswith": "startswith", "update": "setdefault", "extend": "append", "rstrip": "strip", "lstrip": "strip", "strip": "rstrip", "partition": "rpartition", "rpartition": "partition", "split": "rsplit", "rsplit": "split", "setdefault": "get", "pop": "get", "discard": "add", "issubset": "issuperset", "find": "rfind", "popleft": "pop", "timetz": "time", "total_seconds": "seconds"}
+    FSIB = {"any": "all", "all": "any", "isinstance": "issubclass", "min": "max", "max": "min", "sorted": "list", "tuple": "list", "frozenset": "set", "getattr": "hasattr", "reversed": "iter", "len": "bool"}
+
+    def gen2_Call(self, node):
+        if not (self.GEN2 and self.fn):
+            return
+        for k in node.keywords:
+            if k.arg is None:
+                continue
+            parts = [self.text(a) for a in node.args] + [(f"{x.arg}={self.text(x.value)}" if x.arg else f"**{self.text(x.value)}") for x in node.keywords if x is not k]
+            self.add(node, f"{self.text(node.func)}({', '.join(parts)})", "drop-kw", f"keyword `{k.arg}=` dropped from `{self.text(node.func)[:40]}(…)`")
+        f = node.func
+        if isinstance(f, ast.Attribute) and f.attr in self.SIBLING:
+            s, e = seg(self.src, f)
+            vs, ve = seg(self.src, f.value)
+            new = self.src[s:ve] + "." + self.SIBLING[f.attr]
+            self.add(f, new, "method", f"`.{f.attr}` -> `.{self.SIBLING[f.attr]}` in `{self.text(node)[:40]}`")
+        if isinstance(f, ast.Attribute) and f.attr == "get" and len(node.args) == 2 and not node.keywords:
+            self.add(node, f"{self.text(f.value)}[{self.text(node.args[0])}]", "method", f"`{self.text(node)[:40]}` -> subscript")
+        if isinstance(f, ast.Name) and f.id in self.FSIB:
+            self.add(f, self.FSIB[f.id], "method", f"`{f.id}` -> `{self.FSIB[f.id]}` in `{self.text(node)[:40]}`")
+
+    def visit_Subscript(self, node):
+        if self.GEN2 and self.fn and isinstance(node.ctx, ast.Load):
+            sl = node.slice
+            if isinstance(sl, ast.Slice):
+                lo = self.text(sl.lower) if sl.lower else ""
+                hi = self.text(sl.upper) if sl.upper else ""
+                st = (":" + self.text(sl.step)) if sl.step else ""
+                v = self.text(node.value)
+                if lo:
+                    self.add(node, f"{v}[:{hi}{st}]", "slice", f"lower bound dropped from `{self.text(node)[:40]}`")
+                if hi:
+                    self.add(node, f"{v}[{lo}:{st}]", "slice", f"upper bound dropped from `{self.text(node)[:40]}`")
+            elif isinstance(sl, ast.UnaryOp) and isinstance(sl.op, ast.USub) and isinstance(sl.operand, ast.Constant) and sl.operand.value == 1:
+                self.add(sl, "0", "slice", f"index -1 -> 0 in `{self.text(node)[:40]}`")
+            elif isinstance(sl, ast.Constant) and sl.value == 0 and type(sl.value) is int:
+                self.add(sl, "-1", "slice", f"index 0 -> -1 in `{self.text(node)[:40]}`")
         self.generic_visit(node)
 
     def visit_UnaryOp(self, node):
@@ -179,6 +253,7 @@ class Gen(ast.NodeVisitor):
     visit_Tuple = visit_List = visit_Set = _display
 
     def visit_Call(self, node):
+        self.gen2_Call(node)
         if self.fn and len(node.args) >= 2 and not any(isinstance(a, ast.Starred) for a in node.args[:2]):
             a0, a1 = node.args[0], node.args[1]
             s0, e0 = seg(self.src, a0)
@@ -332,6 +407,20 @@ if __name__ == "__main__":
     a = sys.argv[1:]
     if a[0] == "gen":
         gen()
+    elif a[0] == "gen2":
+        # second-generation operators only (ids g00000…)
+        Gen.GEN2 = True
+        import io, contextlib
+        buf = io.StringIO()
+        with contextlib.redirect_stdout(buf):
+            gen()
+        n = 0
+        for l in buf.getvalue().splitlines():
+            m = json.loads(l)
+            if m["op"] in ("drop-kw", "drop-opnd", "del-guard", "if-true", "slice", "method"):
+                m["id"] = f"g{n:05d}"
+                n += 1
+                print(json.dumps(m))
     elif a[0] == "run":
         jobs, only, ops = 14, None, None
         rest = a[3:]
